@@ -162,7 +162,8 @@ Definition sim_to (im : image) (ss : sstate) (s : mstate) (ss' : sstate) (target
 (* after a return: everything corresponds but the variables -- those of the routine are gone with its frame, the
    reference semantics puts the caller's back *)
 Definition ret_state (ss' : sstate) (s' : mstate) : Prop :=
-  agree (m_regs s') (s_regs ss') /\ regs_full (s_regs ss') /\ m_globals s' = s_globals ss' /\ m_world s' = s_world ss' /\ m_unnamed s' = [].
+  agree (m_regs s') (s_regs ss') /\ regs_full (s_regs ss') /\ m_globals s' = s_globals ss' /\ m_world s' = s_world ss' /\ m_unnamed s' = [] /\
+  rf_get (m_regs s') R_DISC_FORWARD = Some (VBool false).
 
 Definition returned (im : image) (ss : sstate) (s : mstate) (ss' : sstate) : Prop :=
   exists ret F, call_tail (m_frames s) = Some (ret, F) /\
@@ -241,10 +242,11 @@ Lemma sim_to_refl im ss s : sim ss s -> sim_to im ss s ss (m_pc s).
 Proof. intros H. exists 0%nat, s, []. split; [reflexivity|]. split; [exact H|]. split; [reflexivity|]. split; [reflexivity|]. rewrite app_nil_r. reflexivity. Qed.
 
 (* ---- the arguments of a call, evaluated while the new frame is under construction ---- *)
-Lemma simr_put_reg_hidden ss s r x k : simr ss s -> visible r = false -> simr ss (put_vm s (DReg r) x k).
+Lemma simr_put_reg_hidden ss s r x k : simr ss s -> visible r = false -> register_eqb R_DISC_FORWARD r = false -> simr ss (put_vm s (DReg r) x k).
 Proof.
-  intros H Hv. destruct H as [Hr Hf Hg Hvars Hw Hu]. constructor; cbn; try assumption.
-  apply agree_set_hidden; assumption.
+  intros H Hv Hnd. destruct H as [Hr Hf Hg Hvars Hw Hu Hdf]. constructor; cbn; try assumption.
+  - apply agree_set_hidden; assumption.
+  - rewrite rf_get_set_other; [exact Hdf|exact Hnd].
 Qed.
 
 Lemma eval_args_S f ss a r : eval_args rt mt (S f) false ss (a :: r) =
@@ -272,14 +274,14 @@ Proof.
     destruct (c_rval_runs_r rt mt a (DReg R_RESULT) Ha (plain_ok_result mt a Ha) im ss s v s1 fuel Hsim Hca Ev) as [Hs1 [n Hn]]. subst s1.
     set (k := zlength (c_rval rt mt a (DReg R_RESULT))) in *.
     set (sa := put_vm s (DReg R_RESULT) v k) in *.
-    assert (Hsa : simr ss sa) by (apply simr_put_reg_hidden; [exact Hsim|reflexivity]).
+    assert (Hsa : simr ss sa) by (apply simr_put_reg_hidden; [exact Hsim|reflexivity|reflexivity]).
     set (sb := advance (with_frames sa (FCall (env_set p0 p v) false None :: F))).
     assert (Eb : esteps 1 im sa = Some (sb, [])).
     { apply (estep1 im sa _ _ _ Hfp). cbn [Machine.exec i_op i_p0 i_p1 I2].
       assert (Hg : get_reg sa R_RESULT = Ok v) by (unfold sa; cbn [put_vm get_reg m_regs]; rewrite rf_get_set_same; reflexivity).
       rewrite Hg. cbn [bind]. change (m_frames sa) with (m_frames s). rewrite Hfr. reflexivity. }
     assert (Hsb : simr ss sb).
-    { destruct Hsa as [Hr' Hf' Hg' Hv' Hw' Hu']. constructor; cbn [sb advance with_pc with_frames with_vars m_regs m_globals m_frames m_world m_unnamed]; try assumption.
+    { destruct Hsa as [Hr' Hf' Hg' Hv' Hw' Hu' Hdf]. constructor; cbn [sb advance with_pc with_frames with_vars m_regs m_globals m_frames m_world m_unnamed]; try assumption.
       change (m_frames sa) with (m_frames s) in Hv'. rewrite Hfr in Hv'. exact Hv'. }
     assert (Hcr' : code_at im (m_pc sb) (c_args ps r)) by exact Hcr.
     destruct (IH ps Hr fuel im ss sb (env_set p0 p v) F vs' s2 Hsb eq_refl Hcr' Er) as [Hs2 (n2 & s' & p1 & E2 & Hs' & Hpc' & Hfr' & Hst' & Hb)]. subst s2.
@@ -359,7 +361,7 @@ Proof.
     destruct (c_rval_runs rt mt v (DReg R_RESULT) Hv (plain_ok_result mt v Hv) im ss s x sa fuel Hsim Hcv Ev) as [Hsa [n Hn]]. subst sa.
     set (k := zlength (c_rval rt mt v (DReg R_RESULT))) in *.
     set (s1 := put_vm s (DReg R_RESULT) x k) in *.
-    assert (Hs1 : sim ss s1) by (apply sim_put_reg_hidden; [exact Hsim|reflexivity]).
+    assert (Hs1 : sim ss s1) by (apply sim_put_reg_hidden; [exact Hsim|reflexivity|reflexivity]).
     destruct (Hir eq_refl) as (ret & F & Hct).
     set (s2 := advance (with_pc (with_stack (with_frames s1 F) (m_stack s1)) ret)).
     assert (E2 : esteps 1 im s1 = Some (s2, [])).
@@ -377,7 +379,7 @@ Proof.
     assert (E1 : esteps 1 im s = Some (s1, [])).
     { apply (estep1 im s _ _ _ Hf1). change (PReg R_RESULT) with (dest_param (DReg R_RESULT)).
       rewrite (exec_moveq im s PNone (DReg R_RESULT) VNone eq_refl eq_refl). apply lift_put; reflexivity. }
-    assert (Hs1 : sim ss s1) by (apply sim_put_reg_hidden; [exact Hsim|reflexivity]).
+    assert (Hs1 : sim ss s1) by (apply sim_put_reg_hidden; [exact Hsim|reflexivity|reflexivity]).
     destruct (Hir eq_refl) as (ret & F & Hct).
     set (s2 := advance (with_pc (with_stack (with_frames s1 F) (m_stack s1)) ret)).
     assert (E2 : esteps 1 im s1 = Some (s2, [])).
@@ -399,7 +401,7 @@ Proof.
     set (s1 := advance (with_frames s (FCall [] false None :: F))).
     assert (E1 : esteps 1 im s = Some (s1, [])) by (apply (estep1 im s _ _ _ Hfc); reflexivity).
     assert (Hs1 : simr ss s1).
-    { destruct Hsim as [Hr Hfu Hg Hv Hst Hw Hu]. constructor; cbn [s1 advance with_pc with_frames with_vars m_regs m_globals m_frames m_world m_unnamed vars_of]; assumption. }
+    { destruct Hsim as [Hr Hfu Hg Hv Hst Hw Hu Hdf]. constructor; cbn [s1 advance with_pc with_frames with_vars m_regs m_globals m_frames m_world m_unnamed vars_of]; assumption. }
     (* the arguments *)
     assert (HcA1 : code_at im (m_pc s1) CA) by exact HcA.
     destruct (args_run args ps Hpl fuel im ss s1 [] F vs sa Hs1 eq_refl HcA1 Ea) as [Hsa (n2 & s2 & p1 & E2 & Hs2 & Hpc2 & Hfr2 & Hst2 & Hbind)]. subst sa.
@@ -415,7 +417,7 @@ Proof.
       apply (estep1 im s2 _ _ _ Hfj'). cbn [Machine.exec i_op i_p0 I1]. rewrite Hfr2, (not_builtin f Hb), Hfind. reflexivity. }
     set (ssb := s_with_locals ss (Some p1)) in *.
     assert (Hs3 : sim ssb s3).
-    { destruct Hs2 as [Hr Hfu Hg Hv Hw Hu]. constructor; cbn [s3 ssb with_pc with_frames with_vars s_with_locals m_regs m_globals m_frames m_world m_unnamed s_regs s_globals s_locals s_world vars_of settled]; try assumption; reflexivity. }
+    { destruct Hs2 as [Hr Hfu Hg Hv Hw Hu Hdf]. constructor; cbn [s3 ssb with_pc with_frames with_vars s_with_locals m_regs m_globals m_frames m_world m_unnamed s_regs s_globals s_locals s_world vars_of settled]; try assumption; reflexivity. }
     assert (Hct3 : call_tail (m_frames s3) = Some (ret, F)) by reflexivity.
     assert (Hd3 : depth_ok (m_frames s3) (zlength (m_stack s3))) by exact I.
     assert (Hin3 : in_loop_ok false None) by (intros H; discriminate).
@@ -447,7 +449,7 @@ Proof.
       exists ((1 + (n2 + 1)) + (n4 + (1 + 1)))%nat, s6, (([] ++ ([] ++ [])) ++ (e4 ++ ([] ++ []))).
       split; [eapply esteps_app; [exact E13|eapply esteps_app; [exact E4|eapply esteps_app; [exact E5|exact E6]]]|].
       split.
-      { destruct Hs4 as [Hr Hfu Hg Hv Hse Hw Hu]. destruct Hsim as [_ _ _ Hv0 Hst0 _ _].
+      { destruct Hs4 as [Hr Hfu Hg Hv Hse Hw Hu Hdf]. destruct Hsim as [_ _ _ Hv0 Hst0 _ _ _].
         constructor; cbn [s6 s5 sfin advance with_pc with_stack with_frames with_vars s_with_locals m_regs m_globals m_frames m_world m_unnamed s_regs s_globals s_locals s_world]; assumption. }
       split; [change (m_pc s6) with (ret + 1); unfold ret; rewrite Hpc2'; lia|].
       split; [change (m_stack s6, fr s6) with (m_stack s4, erase F); rewrite Hsk4, Hstk; reflexivity|].
@@ -457,9 +459,9 @@ Proof.
       rewrite Hct3 in Hct'. injection Hct' as Hret' HF'. subst ret' F'.
       exists ((1 + (n2 + 1)) + n4)%nat, s4, (([] ++ ([] ++ [])) ++ e4).
       split; [eapply esteps_app; [exact E13|exact E4]|].
-      destruct Hr4 as (Hr & Hfu & Hg & Hw & Hu).
+      destruct Hr4 as (Hr & Hfu & Hg & Hw & Hu & Hdf).
       split.
-      { destruct Hsim as [_ _ _ Hv0 Hst0 _ _].
+      { destruct Hsim as [_ _ _ Hv0 Hst0 _ _ _].
         constructor; cbn [sfin s_with_locals s_regs s_globals s_locals s_world]; try assumption; rewrite Hfr4; assumption. }
       split; [rewrite Hpc4; unfold ret; rewrite Hpc2'; lia|].
       split; [unfold fr; rewrite Hfr4, Hst4, Hstk; reflexivity|].
@@ -472,7 +474,7 @@ Proof.
     destruct (c_rval_runs rt mt c (DReg R_RESULT) Hc (plain_ok_result mt c Hc) im ss s x sa fuel Hsim Hcc Ev) as [Hsa [n Hn]]. subst sa.
     set (k := zlength (c_rval rt mt c (DReg R_RESULT))) in *.
     set (s1 := put_vm s (DReg R_RESULT) x k) in *.
-    assert (Hs1 : sim ss s1) by (apply sim_put_reg_hidden; [exact Hsim|reflexivity]).
+    assert (Hs1 : sim ss s1) by (apply sim_put_reg_hidden; [exact Hsim|reflexivity|reflexivity]).
     assert (Hr1 : rf_get (m_regs s1) R_RESULT = Some x) by (unfold s1; cbn [put_vm m_regs]; apply rf_get_set_same).
     pose proof (proj1 simpleB_no_routine inl inr a Ha after) as Hnr. rewrite (len_no_routine _ Hnr) in Hfj |- *.
     set (body := c_stmt rt mt false after a) in *.
@@ -505,7 +507,7 @@ Proof.
     destruct (c_rval_runs rt mt c (DReg R_RESULT) Hc (plain_ok_result mt c Hc) im ss s x sa fuel Hsim Hcc Ev) as [Hsa [n Hn]]. subst sa.
     set (k := zlength (c_rval rt mt c (DReg R_RESULT))) in *.
     set (s1 := put_vm s (DReg R_RESULT) x k) in *.
-    assert (Hs1 : sim ss s1) by (apply sim_put_reg_hidden; [exact Hsim|reflexivity]).
+    assert (Hs1 : sim ss s1) by (apply sim_put_reg_hidden; [exact Hsim|reflexivity|reflexivity]).
     assert (Hr1 : rf_get (m_regs s1) R_RESULT = Some x) by (unfold s1; cbn [put_vm m_regs]; apply rf_get_set_same).
     pose proof (jump_if_false im s1 x (zlength ta + 2) Hr1 Hfj) as Ej.
     assert (Hk : m_pc s1 = m_pc s + k) by reflexivity.
@@ -577,7 +579,7 @@ Proof.
       destruct (c_rval_runs rt mt c (DReg R_RESULT) Hc (plain_ok_result mt c Hc) im ss1 sx x sa f Hsx HcTx Ev) as [Hsa [n Hn]]. subst sa.
       fold T in Hn. fold kT in Hn.
       set (s2 := put_vm sx (DReg R_RESULT) x kT) in *.
-      assert (Hs2 : sim ss1 s2) by (apply sim_put_reg_hidden; [exact Hsx|reflexivity]).
+      assert (Hs2 : sim ss1 s2) by (apply sim_put_reg_hidden; [exact Hsx|reflexivity|reflexivity]).
       assert (Hr2 : rf_get (m_regs s2) R_RESULT = Some x) by (unfold s2; cbn [put_vm m_regs]; apply rf_get_set_same).
       assert (Hpc2 : m_pc s2 = P0 + 1 + kT) by (unfold s2; cbn [put_vm m_pc]; rewrite Hpcx; reflexivity).
       assert (Hfj2 : fetch im (m_pc s2) = Some (jump JC_IF_FALSE (kB + 2))) by (rewrite Hpc2; exact Hfj).
@@ -687,7 +689,7 @@ Proof.
       assert (HcTx : code_at im (m_pc sx) counter_test) by (rewrite Hpcx; exact HcT).
       destruct (counter_test_steps im sx lv d r c0 go Hfrx Hlvx Epos HcTx) as (res & Et & Hres).
       set (s3 := put_vm sx (DReg R_RESULT) res 4) in *.
-      assert (Hs3 : sim ss1 s3) by (apply sim_put_reg_hidden; [exact Hsx|reflexivity]).
+      assert (Hs3 : sim ss1 s3) by (apply sim_put_reg_hidden; [exact Hsx|reflexivity|reflexivity]).
       assert (Hr3 : rf_get (m_regs s3) R_RESULT = Some res) by (unfold s3; cbn [put_vm m_regs]; apply rf_get_set_same).
       assert (Hpc3 : m_pc s3 = P0 + 1 + kN + 4) by (unfold s3; cbn [put_vm m_pc]; rewrite Hpcx; reflexivity).
       assert (Hfj3 : fetch im (m_pc s3) = Some (jump JC_IF_FALSE (kB + 4 + 2))) by (rewrite Hpc3; exact Hfj).
@@ -801,7 +803,7 @@ Proof.
       assert (Et : esteps 1 im sx = Some (s2, [])).
       { apply (estep1 im sx _ _ _ Hftx). change (PReg R_RESULT) with (dest_param (DReg R_RESULT)).
         rewrite (exec_moveq im sx (PBool true) (DReg R_RESULT) (VBool true) eq_refl eq_refl). apply lift_put; reflexivity. }
-      assert (Hs2 : sim ss1 s2) by (apply sim_put_reg_hidden; [exact Hsx|reflexivity]).
+      assert (Hs2 : sim ss1 s2) by (apply sim_put_reg_hidden; [exact Hsx|reflexivity|reflexivity]).
       assert (Hr2 : rf_get (m_regs s2) R_RESULT = Some (VBool true)) by (unfold s2; cbn [put_vm m_regs]; apply rf_get_set_same).
       assert (Hpc2 : m_pc s2 = P0 + 1 + 1) by (unfold s2; cbn [put_vm m_pc]; rewrite Hpcx; reflexivity).
       assert (Hfj2 : fetch im (m_pc s2) = Some (jump JC_IF_FALSE (kB + 2))) by (rewrite Hpc2; exact Hfj).
@@ -898,7 +900,7 @@ Proof.
       assert (HcTx : code_at im (m_pc sx) counter_test) by (rewrite Hpcx; exact HcT).
       destruct (counter_test_steps im sx lv d r c0 go Hfrx Hlvx Epos HcTx) as (res & Et & Hres).
       set (s3 := put_vm sx (DReg R_RESULT) res 4) in *.
-      assert (Hs3 : sim ss1 s3) by (apply sim_put_reg_hidden; [exact Hsx|reflexivity]).
+      assert (Hs3 : sim ss1 s3) by (apply sim_put_reg_hidden; [exact Hsx|reflexivity|reflexivity]).
       assert (Hr3 : rf_get (m_regs s3) R_RESULT = Some res) by (unfold s3; cbn [put_vm m_regs]; apply rf_get_set_same).
       assert (Hpc3 : m_pc s3 = P0 + 1 + kN + 4) by (unfold s3; cbn [put_vm m_pc]; rewrite Hpcx; reflexivity).
       assert (Hfj3 : fetch im (m_pc s3) = Some (jump JC_IF_FALSE (kB + 8 + 2))) by (rewrite Hpc3; exact Hfj).
